@@ -54,14 +54,14 @@ CHECKS["C03"] = dict(
          "sign test looks at a weight-0 quantity; all 13 encoding entry points (conversions, serialisers, Debug/Display, ToConstraintField) observe self only through bytes(encode(self)).",
     note=OTHER_NOTE + " Constancy on cosets and injectivity of the specified encoder are the Decaf theorem (assumed).", design="DESIGN.md §4 C03")
 CHECKS["C04"] = dict(
-    technique="static: forwarding rule over every compiler-listed operator impl (FWD: result denotes G_ADD/G_NEG on the impl's own operands), polynomial ideal-membership by normal-form reduction for the hand-written formulas incl. a completeness factorisation of Z3 (IDEAL), identity/generator constants, identity-form forwarding of the arkworks conversion/cofactor/generator methods, coordinate-wise selection shape (SELECT)",
+    technique="static: forwarding rule over every compiler-listed operator impl (FWD: result denotes G_ADD/G_NEG on the impl's own operands), polynomial ideal-membership by normal-form reduction for the hand-written formulas incl. a completeness factorisation of Z3 (IDEAL), identity/generator constants, identity-form forwarding of the arkworks conversion/cofactor/generator/double methods, coordinate-wise selection shape (SELECT), coverage table over every function of the crate's arkworks group-trait impls (COVER) and over the curve configuration's overridden hooks (HOOK)",
     category="other",
     text="All 59 Add/Sub/Neg/AddAssign/SubAssign/Sum impls plus negate/double_in_place are interpreted down to the arkworks point operations and must denote the right abstract group "
          "operation on their own operands; the minimal backend's add/double/neg formulas are proved to satisfy the a=-1 twisted Edwards law as polynomial identities modulo T*Z=X*Y and the "
          "curve equation, with Z3 a product of never-vanishing factors (completeness).",
     note=OTHER_NOTE + " Trusted: arkworks' twisted_edwards Projective/Affine operators are the complete group law.", design="DESIGN.md §4 C04")
 CHECKS["C05"] = dict(
-    technique="static: forwarding rule over every Mul/MulAssign impl and mul_bigint / multiscalar stub (FWD), loop-summary template match of the double-and-add ladder for both const-generic variants (LADDER), the selection the constant-time ladder is built on (SELECT), group-order facts on const-evaluated constants",
+    technique="static: forwarding rule over every Mul/MulAssign impl and mul_bigint / multiscalar stub (FWD), loop-summary template match of the double-and-add ladder for both const-generic variants (LADDER), the selection the constant-time ladder is built on (SELECT), the curve configuration's overridden scalar-multiplication hooks (HOOK), group-order facts on const-evaluated constants",
     category="other",
     text="Every scalar-multiplication form denotes G_SMUL(point operand, scalar operand); mul_bigint forwards the whole integer; the multiscalar stub folds s*P from the identity; the minimal "
          "backend's ladder is the LSB-first double-and-add over all limbs x 64 bits with no early exit (premises of the textbook induction); cofactor 1, r prime, generator of exact order r.",
@@ -82,7 +82,7 @@ CHECKS["C08"] = dict(
          "normalises to X == 0 and every identity value denotes the neutral element - for all representatives at once.",
     note=OTHER_NOTE + " 'equal iff same encoding' beyond conformance of eq and encode is Decaf section 4.5 (assumed).", design="DESIGN.md §4 C08")
 CHECKS["C10"] = dict(
-    technique="static: forwarding rule over all 174 operator/iterator impls and 57 arithmetic methods of the field layer down to the backend primitive (FWD), fold identity by evaluated value (IDENT), exponent-coverage loop template (EXP), Montgomery/canonical typestate at raw-limb constructors (DOM), limb-wise selection shape (SELECT), inverse zero-guard and divstep driver facts (INV)",
+    technique="static: forwarding rule over all 174 operator/iterator impls and 57 arithmetic methods of the field layer down to the backend primitive (FWD), fold identity by evaluated value (IDENT), exponent-coverage loop template (EXP), Montgomery/canonical typestate at raw-limb constructors (DOM), limb-wise selection shape (SELECT), inverse zero-guard and divstep driver facts (INV), coverage table over every function of the wrappers' arkworks field-trait impls with the remaining ones interpreted (COVER)",
     category="other",
     text="Decides the hand-written wrapper and forwarding layer of all three fields in both backends: each impl denotes the right ring operation on its own operands in its own order, "
          "Sum/Product fold from 0/1, power/pow_le_limbs consume the whole exponent with a correct square-and-multiply template, raw limbs reach constructors only in the domain they expect, "
@@ -99,7 +99,7 @@ CHECKS["C07"] = dict(
          "square-root routine (VALID). NOT decided: that the optimised routine equals the unoptimised Elligator 2 map (an algebraic identity about square roots).",
     note=OTHER_NOTE + " Trusted: spec/decaf_spec.py transcription; ISQRT contract (C09); group addition (C04).", design="DESIGN.md §4 C07")
 CHECKS["C09"] = dict(
-    technique="static: structural necessary conditions only - zero-case return flows, mask-below-length index rule, window/shift/pow-chain integer facts, table-filling loop summaries, constant folding of the Lazy statics, Euler split and constant-time Tonelli-Shanks loop template, Field::legendre shape",
+    technique="static: structural necessary conditions only - zero-case return flows, mask-below-length index rule, window/shift/pow-chain integer facts, table-filling loop summaries, constant folding of the Lazy statics, Euler split and constant-time Tonelli-Shanks loop template, Field::legendre shape, exactly one computed return flow besides the zero cases, Field::sqrt inherited or interpreted against the routine's contract (SQRT)",
     category="other",
     text="LARGELY NOT APPLICABLE to static analysis: that the routines return a correct root and flag for every (num, den), and that no HashMap lookup misses, is number theory over "
          "data-dependent table walks and is NOT decided. Decided are necessary conditions that realistic edits break while the 10000-case proptest keeps passing: the two zero cases in "
@@ -125,7 +125,7 @@ CHECKS["C12"] = dict(
     design="DESIGN.md §4 C12")
 
 CHECKS["C13"] = dict(
-    technique="static (cfg r1cs): term agreement native<->gadget by canonical polynomial forms (SIB/TERM), constraint<->rejection correspondence (ENFORCE), forwarding rule over the 24 gadget operator impls (FWD), hint = native sqrt (HINT), allocation-mode dataflow (ALLOC), exhaustive 3-state x 2-method typestate enumeration of the lazy cell (LAZY)",
+    technique="static (cfg r1cs): term agreement native<->gadget by canonical polynomial forms (SIB/TERM), constraint<->rejection correspondence (ENFORCE), forwarding rule over the 24 gadget operator impls (FWD), hint = native sqrt (HINT), allocation-mode dataflow (ALLOC), exhaustive 3-state x 2-method typestate enumeration of the lazy cell (LAZY), eager emission of the decode gadget by decompress_from_field (EAGER), honest rows of the hint block's guard table, the gadget zero test and the pinned set of inherited ark-r1cs-std defaults (IDENT/DEFAULT)",
     category="other",
     text="In-circuit encode / decode / Elligator are the same polynomial functions as the specification (hence as the native code, C01/C03/C07) under Z := 1, T := X*Y; decode enforces exactly the "
          "native rejections; every operator form on both ElementVar types, negate, double, equality, (in)equality enforcement and conditional select denote the native operation on their own "
